@@ -290,6 +290,27 @@ def session(exe, lines, env=None, timeout=600, cwd=None):
     return p.stdout.split('\n')[:-1] if p.stdout.endswith('\n') else p.stdout.split('\n'), p.returncode, p.stderr
 
 
+def psession(exe, lines, nproc=None, **kw):
+    """like session, but the (independent) request lines are spread over several processes"""
+    nproc = nproc or min(NPROC, 16)
+    if len(lines) < 4 * nproc:
+        return session(exe, lines, **kw)
+    chunks = [lines[i::nproc] for i in range(nproc)]
+    with ThreadPoolExecutor(max_workers=nproc) as ex:
+        rs = list(ex.map(lambda c: session(exe, c, **kw), chunks))
+    out = [None] * len(lines)
+    err = ''
+    rc = 0
+    for i, (o, r, e) in enumerate(rs):
+        if len(o) != len(chunks[i]):
+            return [], r, e
+        for j, x in enumerate(o):
+            out[i + j * nproc] = x
+        err += e[-300:]
+        rc = rc or r
+    return out, rc, err
+
+
 def driver_exe():
     return os.path.join(LEAN, '.lake', 'build', 'bin', 'blfdriver')
 
